@@ -1,0 +1,117 @@
+use std::{
+    panic,
+    sync::{Mutex, MutexGuard, PoisonError},
+    thread::{self, Thread},
+};
+
+/// A reusable barrier for the threads of a benchmark.
+///
+/// Unlike [`std::sync::Barrier`], it can be broken: if a participating thread
+/// panics instead of arriving, the threads waiting for it are released with a
+/// panic of their own rather than being left waiting forever.
+pub(crate) struct SampleBarrier {
+    thread_count: usize,
+    state: Mutex<State>,
+}
+
+struct State {
+    /// Threads parked in `wait`. Never grows past its initial capacity, so
+    /// waiting does not allocate.
+    waiting: Vec<Thread>,
+
+    /// Incremented each time all threads have arrived.
+    generation: usize,
+
+    /// Set if a thread panicked while others may wait for it.
+    is_broken: bool,
+}
+
+/// Payload of the panic that releases threads waiting on a broken barrier.
+struct BrokenBarrier;
+
+impl SampleBarrier {
+    pub fn new(thread_count: usize) -> Self {
+        Self {
+            thread_count,
+            state: Mutex::new(State {
+                waiting: Vec::with_capacity(thread_count),
+                generation: 0,
+                is_broken: false,
+            }),
+        }
+    }
+
+    fn state(&self) -> MutexGuard<'_, State> {
+        self.state.lock().unwrap_or_else(PoisonError::into_inner)
+    }
+
+    /// Blocks until all threads have called `wait`.
+    ///
+    /// # Panics
+    ///
+    /// Panics if another thread panicked instead of arriving.
+    pub fn wait(&self) {
+        let mut state = self.state();
+
+        if state.is_broken {
+            drop(state);
+            Self::panic_broken();
+        }
+
+        // The last thread to arrive releases the others.
+        if state.waiting.len() + 1 >= self.thread_count {
+            state.generation = state.generation.wrapping_add(1);
+            for thread in state.waiting.drain(..) {
+                thread.unpark();
+            }
+            return;
+        }
+
+        let generation = state.generation;
+        state.waiting.push(thread::current());
+        drop(state);
+
+        loop {
+            thread::park();
+
+            let state = self.state();
+            if state.is_broken {
+                drop(state);
+                Self::panic_broken();
+            }
+            if state.generation != generation {
+                return;
+            }
+        }
+    }
+
+    /// Returns a guard that breaks the barrier if it is dropped while the
+    /// current thread is panicking.
+    pub fn break_on_panic(&self) -> impl Drop + '_ {
+        struct Guard<'a>(&'a SampleBarrier);
+
+        impl Drop for Guard<'_> {
+            fn drop(&mut self) {
+                if thread::panicking() {
+                    self.0.break_waiters();
+                }
+            }
+        }
+
+        Guard(self)
+    }
+
+    fn break_waiters(&self) {
+        let mut state = self.state();
+        state.is_broken = true;
+        for thread in state.waiting.drain(..) {
+            thread.unpark();
+        }
+    }
+
+    fn panic_broken() -> ! {
+        // Do not invoke the panic hook: the thread that broke the barrier
+        // already reported its panic.
+        panic::resume_unwind(Box::new(BrokenBarrier))
+    }
+}
